@@ -446,6 +446,66 @@ func sharedState() []site {
 }
 
 
+
+// fields of a struct type, and the receiver fields a method assigns (`c.f = …`, in source order, once each)
+func structFields(f *ast.File, typ string) []string {
+	var out []string
+	ast.Inspect(f, func(n ast.Node) bool {
+		ts, ok := n.(*ast.TypeSpec)
+		if !ok || ts.Name.Name != typ {
+			return true
+		}
+		if st, ok := ts.Type.(*ast.StructType); ok {
+			for _, fl := range st.Fields.List {
+				for _, nm := range fl.Names {
+					out = append(out, nm.Name)
+				}
+			}
+		}
+		return false
+	})
+	return out
+}
+
+func assignedFields(fd *ast.FuncDecl) []string {
+	var out []string
+	seen := map[string]bool{}
+	recv := ""
+	if fd.Recv != nil && len(fd.Recv.List) == 1 && len(fd.Recv.List[0].Names) == 1 {
+		recv = fd.Recv.List[0].Names[0].Name
+	}
+	ast.Inspect(fd.Body, func(n ast.Node) bool {
+		as, ok := n.(*ast.AssignStmt)
+		if !ok {
+			return true
+		}
+		for _, l := range as.Lhs {
+			if se, ok := l.(*ast.SelectorExpr); ok {
+				if id, ok := se.X.(*ast.Ident); ok && id.Name == recv && !seen[se.Sel.Name] {
+					seen[se.Sel.Name] = true
+					out = append(out, se.Sel.Name)
+				}
+			}
+		}
+		return true
+	})
+	return out
+}
+
+func findMethod(f *ast.File, recvType, name string) *ast.FuncDecl {
+	for _, d := range f.Decls {
+		fd, ok := d.(*ast.FuncDecl)
+		if !ok || fd.Name.Name != name || fd.Recv == nil || len(fd.Recv.List) != 1 {
+			continue
+		}
+		if strings.TrimPrefix(exprStr(fd.Recv.List[0].Type), "*") == recvType {
+			return fd
+		}
+	}
+	extractFail("method " + recvType + "." + name + " not found")
+	return nil
+}
+
 // ---- alpha-normalisation -------------------------------------------------------------------------
 // Inventory lines and case bodies are compared as text; the names a function gives to its receiver,
 // parameters, results and local variables are replaced by v0, v1, … (order of declaration), so that
@@ -953,6 +1013,23 @@ func init() {
 			}
 			sb.WriteString(casesLean(t.lean, rows))
 		}
+		// reset completeness: the fields of the long-lived objects and the fields their reset methods assign
+		sb.WriteString("def resetFacts : List (String × List String × List String) :=\n  [")
+		for i, t := range []struct{ file, typ, method string }{
+			{"calculator/parsers/ExpressionParser.go", "ExpressionParser", "Clear"},
+			{"mustache/parsers/MustacheParser.go", "MustacheParser", "Clear"},
+			{"tokenizers/AbstractTokenizer.go", "AbstractTokenizer", "SetReader"},
+			{"mustache/tokenizers/MustacheTokenizer.go", "MustacheTokenizer", "ReadNextToken"},
+			{"calculator/ExpressionCalculator.go", "ExpressionCalculator", "Clear"},
+			{"mustache/MustacheTemplate.go", "MustacheTemplate", "Clear"},
+		} {
+			f := parseRepoFile(t.file)
+			if i > 0 {
+				sb.WriteString(",\n   ")
+			}
+			fmt.Fprintf(&sb, "(%s, %s, %s)", strconv.Quote(t.typ+"."+t.method), leanStrList(structFields(f, t.typ)), leanStrList(assignedFields(findMethod(f, t.typ, t.method))))
+		}
+		sb.WriteString("]\n")
 		sb.WriteString("\nend Verif.Gen\n")
 		writeIfChanged(filepath.Join(dir, "Facts.lean"), sb.String())
 		// inventories (compared with expect/*.json by ./check)
